@@ -154,7 +154,7 @@ def rec_equal(E, x, r, cnt, ev, R, n, m):
 def body(E, n, m, num_pts, npt_so_far, preset, with_h=False, xr=False, nsample_mode='one', fault=None, proj=False):
     np = E.np
     log = EvalLog()
-    objfun = mk_objfun(E, m, log, xr=xr, raise_at=(0 if fault == 'raise' else None))
+    objfun = mk_objfun(E, m, log, xr=xr, raise_at=(0 if fault == 'raise' else (1 if fault == 'raise1' else None)))
     C, M, ghost, params = mk_controller(E, n, m, num_pts, npt_so_far, preset=preset, with_h=with_h, xr=xr, objfun=objfun,
                                          kopt_minimal=False)
     rec = {'evals': [], 'rng': [], 'cb': [], 'dyk': []}
@@ -250,14 +250,17 @@ def check_step(E, outcome, exc, env, pre, C, M, params, log, rec, old_records, n
     # ---------------- exceptions
     if outcome == 'raise':
         if isinstance(exc, UserObjfunError):
-            E.prove(fault == 'raise', 'C08:only-user-exceptions-propagate')
-            E.prove(len(log.calls) == 1, 'C08:no-evaluation-after-user-exception')
+            E.prove(fault in ('raise', 'raise1'), 'C08:only-user-exceptions-propagate')
+            E.prove(len(log.calls) == (1 if fault == 'raise' else 2), 'C08:no-evaluation-after-user-exception')
             return
         if isinstance(exc, LinAlgError) and params("interpolation.throw_error_on_nans"):
             E.reach('C08:opted-in-raise')
             return
         E.fail('C08:main-loop-raises-' + type(exc).__name__, detail=str(exc)[:200])
         E.fail('C07:main-loop-raises-' + type(exc).__name__, detail=str(exc)[:200])
+        return
+    if fault in ('raise', 'raise1') and any(c.get('raised') for c in log.calls):
+        E.fail('C08:user-exception-was-swallowed[%s]' % _site(outcome, env), detail='the objective raised but the iteration went on (%s)' % outcome)
         return
     # ---------------- C02: counters
     calls = len(log.calls)
@@ -443,7 +446,7 @@ def step_harnesses(tier, seed, pid):
         if pid == 'C19':
             combos.append(D + ('regression-geom', False, False, 'one', None))
         if pid == 'C08':
-            combos = [D + ('default', False, True, 'one', None), D + ('default', False, False, 'one', 'raise')]
+            combos = [D + ('default', False, True, 'one', None), D + ('default', False, False, 'one', 'raise'), D + ('default', False, False, 'one', 'raise1')]
     else:
         G = (2, 1, 3, 2)
         one = lambda preset, dims=D, h=False, xr=False, ns='one', fault=None: dims + (preset, h, xr, ns, fault)
@@ -461,12 +464,12 @@ def step_harnesses(tier, seed, pid):
             'C01': [one('default'), one('growing', G), one('regression-momentum'), one('soft-restarts'), one('default', (2, 1, 3, 3))],
             'C19': [one('default'), one('regression-geom'), one('growing-perturb', G), one('regression-momentum'), one('soft-restarts-increase-npt'), one('growing', G)],
             'C11': [one('default'), one('soft-restarts'), one('hard-restarts')],
-            'C08': [one('default', xr=True), one('default', fault='raise'), one('soft-restarts', xr=True), one('noise', xr=True),
+            'C08': [one('default', xr=True), one('default', fault='raise'), one('default', fault='raise1'), one('soft-restarts', fault='raise'), one('soft-restarts', xr=True), one('noise', xr=True),
                     one('default', xr=True, ns=2), one('default', h=True, xr=True)],
         }
         combos = THOROUGH.get(pid, [one('default'), one('soft-restarts')])
     if pid == 'C09':
-        combos = [D + ('default', False, False, 'one', None)] if tier == 'quick' else \
+        combos = [D + ('default', False, False, 'one', None), D + ('regression-momentum', False, False, 'one', None)] if tier == 'quick' else \
             [D + (p_, False, False, 'one', None) for p_ in ('default', 'soft-restarts', 'regression-geom', 'regression-momentum')] + \
             [(2, 1, 3, 2, 'growing', False, False, 'one', None)]
     for (n, m, num_pts, npt_so_far, preset, with_h, xr, nsm, fault) in combos:
@@ -480,7 +483,7 @@ def step_harnesses(tier, seed, pid):
                               n, m, npt_so_far, num_pts, preset, nsm),
                           assumptions=["INV: " + s for s in INV] + ["stub: " + s for s in STUBS],
                           expect=[], nproc=None, home='STEP', max_replays=3,
-                          wall_budget=(300 if tier == 'quick' else 700)))
+                          wall_budget=(600 if tier == 'quick' else 900)))
     return hs
 
 
